@@ -1,7 +1,7 @@
 (* C03 - same files and configuration always give byte-identical output. Statements only. *)
 From Coq Require Import String Permutation.
 From Verif Require Import Base.Str Base.Lines Base.Outcome Regex.Re Regex.Equiv Model.Patterns Model.ParseLine Model.Passes Model.CmdLine Model.Parser Model.Assembler Model.Generate.
-From Verif Require Import Proofs.EquivSound Proofs.PassesProofs Proofs.CmdLineProofs Proofs.ParserProofs Proofs.AssemblerProofs.
+From Verif Require Import Proofs.EquivSound Proofs.PassesProofs Proofs.CmdLineProofs Proofs.ParserProofs Proofs.AssemblerProofs Proofs.ParseOrdProofs.
 From Verif Require Tie.Pin_IncludeRegex_src Tie.Pin_IncludeExceptRegex_src Tie.Pin_DefinitionRegex_src Tie.Pin_CommentRegex_src Tie.Pin_FlagsRegex_src Tie.Pin_PrefixRegex_src Tie.Pin_SuffixRegex_src.
 From Verif Require Tie.Pin_lits_regex_parser_parser_Parser_Parse Tie.Pin_lits_regex_parser_parser_Parser_parseLine Tie.Pin_lits_regex_parser_include_except_builder_replaceSuffixes Tie.Pin_lits_regex_parser_include_except_builder_stringFromInclusionLines Tie.Pin_lits_regex_parser_parser_expandDefinitions Tie.Pin_lits_regex_operators_assembler_Operator_complete Tie.Pin_lits_regex_operators_assembler_Operator_Run.
 Open Scope N_scope.
@@ -52,3 +52,20 @@ Theorem C03_run_ignores_process_state :
 Proof. exact assemble_ignores_globals. Qed.
 Print Assumptions C03_run_ignores_process_state.
 
+(* THE WHOLE PARSER AND THE WHOLE COMMAND: for ALL main files, include files and exclude files, the
+   result of generate does not depend on the iteration order of the directive-pattern map (any two
+   orders with the same elements) nor on the iteration order of the inclusion-line map of
+   include-except (any two permutations).  Of the four map iterations of the pipeline only the
+   two over suffix pairs and definitions remain - the recorded findings C03-chained-suffix-pairs
+   and C03-cyclic-definitions, refuted above / per case. *)
+Theorem C03_generate_independent_of_pattern_and_line_map_order :
+  forall o1 o2, (forall p, In p o1 <-> In p o2) ->
+  forall ords ords2 ordi1 ordi2, (forall m, Permutation m (ordi1 m)) -> (forall m, Permutation m (ordi2 m)) ->
+  forall join cfg limit_parse limit_asm fs contents,
+  generate join cfg o1 ords ords2 ordi1 limit_parse limit_asm fs contents =
+  generate join cfg o2 ords ords2 ordi2 limit_parse limit_asm fs contents.
+Proof.
+  intros o1 o2 Hs ords ords2 ordi1 ordi2 H1 H2 join cfg lp la fs c.
+  now apply (generate_ordp_ordi_indep o1 o2 Hs ords ords2 ordi1 ordi2 H1 H2 lp fs join cfg lp la c).
+Qed.
+Print Assumptions C03_generate_independent_of_pattern_and_line_map_order.
